@@ -369,6 +369,27 @@ Proof.
     rewrite <- C1. apply IH; assumption.
 Qed.
 
+(* a message is written in many pieces (one binary.Write per field): whatever the pieces and the capacities the runtime
+   picks along the way, the buffer afterwards holds what it held, followed by the pieces in order *)
+Lemma fold_astep_writes (ws : list (nat * list byte)) : forall c,
+  fold_left astep (map (fun w => BWrite (fst w) (snd w)) ws) c = c ++ concat (map snd ws).
+Proof.
+  induction ws as [|w ws IH]; intro c; cbn [map fold_left concat astep].
+  - symmetry. apply app_nil_r.
+  - rewrite IH, app_assoc. reflexivity.
+Qed.
+
+Theorem writes_concatenate ws s s' : WF (st_h s) (st_b s) ->
+  bsteps s (map (fun w => BWrite (fst w) (snd w)) ws) = Some s' ->
+  WF (st_h s') (st_b s') /\ contents (st_h s') (st_b s') = contents (st_h s) (st_b s) ++ concat (map snd ws).
+Proof.
+  intros W R.
+  assert (Hp : forallb (fun o => negb (pokes o)) (map (fun w => BWrite (fst w) (snd w)) ws) = true).
+  { clear. induction ws as [|w ws IH]; cbn; [reflexivity | exact IH]. }
+  destruct (buffer_refines_list _ s s' W Hp R) as (W' & C). split; [exact W'|].
+  rewrite C. apply fold_astep_writes.
+Qed.
+
 Lemma new_buffer_wf a k : k <= length a -> WF (st_h (new_buffer a k)) (st_b (new_buffer a k)).
 Proof. intros H. unfold WF, new_buffer, cap, get. cbn. lia. Qed.
 
